@@ -21,6 +21,7 @@ Reading used here.
             `Pin.ExpiredAt` (zero time, unix 0), second 0 and the second of the zero time are one value;
     query   `Metadata` is compared without the entry for the empty key ("meta-" + "" is
             skipped by ToQuery and FromQuery; PinOptions.Equals ignores it);
+    snapshot (a state dump: dsstate.Marshal/Unmarshal, pins in protobuf inside msgpack entries)  as proto;
     msgpack, json   nothing.
   `Mode` is NOT in the list: the statement does not name it.
 * Well-formed (`wfRt`): what constructors and the REST layer guarantee and the statement
@@ -64,6 +65,8 @@ def fieldEq (f : Fmt) (path a b : String) : Bool :=
   match f, lastSeg path with
   | .proto, "UserAllocations" => true
   | .proto, "ExpireAt" => (expirySeconds a).isSome && expirySeconds a == expirySeconds b
+  | .snapshot, "UserAllocations" => true
+  | .snapshot, "ExpireAt" => (expirySeconds a).isSome && expirySeconds a == expirySeconds b
   | .query, "Metadata" => metaNoEmptyKey a == metaNoEmptyKey b
   | _, _ => a == b
 
@@ -108,7 +111,8 @@ def namedStatus (tok : String) : Bool :=
   match tok.toNat? with | some st => (statusNames.map (·.1)).contains st | none => false
 
 def isPinPath (rec path : String) (field : String) : Bool :=
-  (rec == "Pin" && path == field) || (rec == "LogOp" && path == "Cid." ++ field)
+  (rec == "Pin" && path == field) || (rec == "LogOp" && path == "Cid." ++ field) ||
+  (rec == "Snapshot" && path.endsWith ("]." ++ field))
 
 def wfField (rec : String) (kv : String × String) : Bool :=
   let path := kv.1
@@ -137,7 +141,7 @@ def panics : List String := ["encpanic", "decpanic", "dumppanic", "panic"]
 
 def rtClauseName : Fmt → String
   | .proto => "roundtrip_proto" | .msgpack => "roundtrip_msgpack" | .msgpackraft => "roundtrip_msgpack"
-  | .json => "roundtrip_json" | .query => "roundtrip_query"
+  | .json => "roundtrip_json" | .query => "roundtrip_query" | .snapshot => "roundtrip_proto"
 
 /-- one round-trip case: record, format, dump of the value, status of the real encode→decode, dump of the result -/
 def rtClauses (rec : String) (f : Fmt) (inp : KVs) (status : String) (out : KVs) : List (String × Bool) :=
